@@ -57,12 +57,18 @@ Spec == Init /\ [][Next]_vars
 All == [i \in 1..Len(specs) |-> i]
 Tree == Build(specs, All, PBuild, Dev)
 
-Equiv == Len(specs) >= 1 => \A w \in Words : Lookup(specs, Tree, w, PCall) = Scan(specs, w, PCall)
-Struct == Len(specs) >= 1 =>
-            /\ Routing(specs, Tree, PBuild)
-            /\ PartitionAll(specs, Tree)
-            /\ LeafOrderW(specs, Tree, PBuild)
-            /\ LeafOrderStable(specs, Tree)
+EquivOn(T) == LET ord == AllSorted(specs)
+                  call == PCall
+              IN \A w \in Words : Lookup(specs, T, w, call) = FirstIn(specs, ord, w, call)
+StructOn(T) == LET pb == PBuild IN
+               /\ Routing(specs, T, pb)
+               /\ PartitionAll(specs, T)
+               /\ LeafOrderW(specs, T, pb)
+               /\ LeafOrderStable(specs, T)
+Equiv  == Len(specs) >= 1 => EquivOn(Tree)
+Struct == Len(specs) >= 1 => StructOn(Tree)
+(* both at once (the tree is built once per table) *)
+Inv == Len(specs) >= 1 => LET T == Tree IN EquivOn(T) /\ StructOn(T)
 
 -----------------------------------------------------------------------------
 (* G: the table as real format strings, direction '>' (LSB first):          *)
@@ -85,7 +91,7 @@ SetToSeq(X) == IF X = {} THEN <<>> ELSE LET x == CHOOSE x \in X : TRUE IN <<x>> 
 Behaviour ==
   [U |-> U, endian |-> E, maxlen |-> MaxLen, callmaxlen |-> PCall.maxlen,
    specs |-> [i \in 1..Len(specs) |-> [fmt |-> FmtOf(specs[i]), hk |-> specs[i].hk]],
-   leaf |-> Tree.leaf,
+   leaf |-> Tree.leaf, nleaves |-> Cardinality(LeavesOf(Tree, <<>>)),
    words |-> LET ws == SetToSeq(Words) IN [k \in 1..Len(ws) |-> [w |-> ws[k], win |-> Scan(specs, ws[k], PCall)]]]
 
 EmitC == (Gen /\ Len(specs) = MaxSpecs) => PrintT(ToJson(Behaviour))
